@@ -349,7 +349,7 @@ __CPROVER_ensures((RET.read_pos == NULL) ==> (self->_consumer->bounded_queue._wr
 )
 
 empty = dict(
-    name='UQ.empty', primary='C02', props={'C02', 'C20'}, kind='L',
+    name='UQ.empty', primary='C02', props={'C02', 'C20', 'C07', 'C17', 'C03'}, kind='L',
     desc='UnboundedSPSCQueue::empty: true only if the current buffer is empty and no next buffer is known',
     structs=[BQ_STRUCT, NODE_STRUCT, UQ_STRUCT, RR_STRUCT], prelude=CONSUMER + odecls(['empty']),
     enforce='UQ_empty', replace=['BQ_empty', 'load_next_cons'],
@@ -361,7 +361,7 @@ __CPROVER_assigns(self->_consumer->next, self->_consumer->g_published, self->_co
 __CPROVER_ensures(NODE_OK(self->_consumer))
 __CPROVER_ensures(RET ==> (self->_consumer->bounded_queue._writer_pos_cache == self->_consumer->bounded_queue._reader_pos)) /*@ C02 "empty() is true only if the consumer sees nothing unread in its current buffer" */
 #ifdef SC_LOADS
-__CPROVER_ensures((RET && OLD(self->_consumer->g_published)) ==> false) /*@ C20 "a queue whose producer already moved to another buffer is never reported empty (the context is not reclaimed with records pending in the next buffer)" */
+__CPROVER_ensures((RET && OLD(self->_consumer->g_published)) ==> false) /*@ C20,C07,C17,C03 "a queue whose producer already moved to another buffer is never reported empty (the context is not reclaimed, the exit drain does not stop, a removed logger is not destroyed with records pending in the next buffer)" */
 #endif
 ''')],
     harness='  UQ* u; UQ_empty(u);',
